@@ -120,6 +120,24 @@ func check(raw json.RawMessage) error {
 	min, max := dimOf(c.Min), dimOf(c.Max)
 	capacity := largestAdmitted(c)
 	mustFit := isLatin && capacity > 0 && asciiLen(lat)+fitSlack <= capacity
+	// a text made of extended characters only has one sensible encodation, a single Base-256 run
+	// (latch + one or two length bytes + the bytes): if that fits, the text fits
+	if isLatin && capacity > 0 && !mustFit && len(lat) > 0 {
+		allExt := true
+		for _, b := range lat {
+			if b < 128 {
+				allExt = false
+				break
+			}
+		}
+		lenBytes := 1
+		if len(lat) > 249 {
+			lenBytes = 2
+		}
+		if allExt && 1+lenBytes+len(lat) <= capacity {
+			mustFit = true
+		}
+	}
 	desc := fmt.Sprintf("text=%s (%d chars) shape=%d min=%v max=%v", show(c.Text), len(lat), c.Shape, c.Min, c.Max)
 
 	if c.Path == "codewords" {
@@ -730,8 +748,22 @@ func TestCheck(t *testing.T) {
 					maxLen = cl.max[1]
 				}
 				rs := []rune(cl.chars)
-				for L := 1; L <= maxLen && !stop; L++ {
-					// quick: every length up to the quick bound, plus the Base-256 two-byte boundary region
+				// lengths around every symbol capacity for this class's packing density are always
+				// included, also in the quick tier (e.g. the 1555-byte Base-256 run that exactly fills 144x144)
+				near := map[int]bool{}
+				for _, a := range dmref.Sizes {
+					for _, dens := range [][2]int{{1, 1}, {2, 1}, {3, 2}, {4, 3}} { // characters per codeword
+						centre := a.Data * dens[0] / dens[1]
+						for d := -5; d <= 2; d++ {
+							near[centre+d] = true
+						}
+					}
+				}
+				for L := 1; L <= cl.max[1] && !stop; L++ {
+					if L > maxLen && !near[L] {
+						continue
+					}
+					// quick: every length up to the quick bound, plus the capacity boundary regions
 					body := make([]rune, L)
 					for i := range body {
 						body[i] = rs[(i*7+L)%len(rs)]
